@@ -270,4 +270,17 @@ def probe_c15(oblig, tier, seed):
     return {'found': False, 'tried': tried}
 
 
-PROBES = {'C15': probe_c15, 'C09': probe_c09, 'C08': probe_c08, 'C02': probe_c02, 'C04': probe_c04, 'C19': probe_c19, 'C12': probe_c12, 'C01': probe_c01, 'C13': probe_c01, 'C05': probe_c05, 'C03': probe_c03, 'C06': probe_c06}
+def probe_c11(oblig, tier, seed):
+    cases = [('echo $(echo >) x', ' x\n'), ('echo `echo >` `echo b`', ' b\n'), ('echo a$(echo b)c', 'abc\n'), ('echo "x `echo y` z"', 'x y z\n'),
+             ('echo $(echo a) $(echo b)', 'a b\n'), ('echo `echo a``echo b`', 'ab\n'), ("echo '$(echo a)'", '$(echo a)\n'), ('echo pre`echo >`post', 'prepost\n')]
+    tried = 0
+    for line, out in cases:
+        w = {'line': line, 'expect_stdout': out, 'timeout': 5}
+        tried += 1
+        bad, detail = W.violates(w, W.observe(w))
+        if bad:
+            return _found(w, detail)
+    return {'found': False, 'tried': tried}
+
+
+PROBES = {'C11': probe_c11, 'C15': probe_c15, 'C09': probe_c09, 'C08': probe_c08, 'C02': probe_c02, 'C04': probe_c04, 'C19': probe_c19, 'C12': probe_c12, 'C01': probe_c01, 'C13': probe_c01, 'C05': probe_c05, 'C03': probe_c03, 'C06': probe_c06}
